@@ -238,8 +238,19 @@ class C20(Check):
                                 count, c, conn, ens, seed, type(exc).__name__, exc))
                             continue
                         self.reprod += 1
-                        if log != log2 or [x.i for x in _u.vertices] != [x.i for x in _u2.vertices]:
-                            self._viol.append("randgraph under the same seed %d gave two different results" % seed)
+                        if log != log2 or self.shape(_u) != self.shape(_u2):
+                            self._viol.append("randgraph(count=%d, edge=%s, connectivity=%s, ensurelink=%s) under the same seed %d gave two different results: %s / %s" % (
+                                count, c, conn, ens, seed, self.shape(_u), self.shape(_u2)))
+                        # the statement itself, judged directly on the seeded run (no model involved)
+                        msg = self.judge(_u, count, LCLS[c], ens == "1")
+                        if msg:
+                            self._viol.append("randgraph(count=%d, edge=%s, connectivity=%s, ensurelink=%s) under random.seed(%d): %s" % (
+                                count, c, conn, ens, seed, msg))
+                        if log is None:
+                            # the code no longer draws one randint + one sample per vertex through `random.<fn>`: the
+                            # replay of the draws on the model is unavailable (recorded in the evidence, not an alarm)
+                            self.untapped = getattr(self, "untapped", 0) + 1
+                            continue
                         draws = ";".join("%d:%s" % (r, ",".join(map(str, smp))) for r, smp in log) or "."
                         lines = ["reset"]
                         if rng.random() < 0.3:
@@ -252,6 +263,7 @@ class C20(Check):
     def extra_violations(self, stats):
         from engine import Violation
         stats.extra["seeded_runs_checked_for_reproducibility"] = getattr(self, "reprod", 0)
+        stats.extra["seeded_runs_whose_draws_could_not_be_replayed_on_the_model"] = getattr(self, "untapped", 0)
         v = [Violation("oracle", m, ["randgraph-direct: " + m]) for m in self._viol[:5]]
         self._viol = []
         return v
@@ -262,6 +274,11 @@ class C20(Check):
     def pre(self, real, line):
         return len(real.V) if line.startswith("randgraph") else None
 
+    @staticmethod
+    def shape(u):
+        """the structure of a result, independent of object identities: per vertex (by i) the ordered links as (class, i of v1, i of v2)"""
+        return [(v.i, [(type(l).__name__,) + tuple(getattr(e, "i", None) for e in l.vertices) for l in v.links]) for v in u.vertices]
+
     def oracle(self, real, line, out, pre):
         if pre is None:
             return None
@@ -269,7 +286,10 @@ class C20(Check):
         count, cls, ens = int(t[1]), LCLS[t[2]], t[4] == "1"
         if not out.startswith("ok V"):
             return "%s answered %s" % (line[:60], out)
-        u = real.V[int(out.split()[1][1:])]
+        return self.judge(real.V[int(out.split()[1][1:])], count, cls, ens)
+
+    @staticmethod
+    def judge(u, count, cls, ens):
         vs = u.vertices
         if len(vs) != count:
             return "universe has %d vertices, count=%d" % (len(vs), count)
